@@ -48,12 +48,12 @@ func (z *Decimal) Sqrt(x *Decimal) *Decimal {
 		return z
 	}
 
-	// MantExp sets the argument's precision to the receiver's, and
-	// when z.prec > x.prec this will lower z.prec. Restore it after
-	// the MantExp call.
-	prec := z.prec
+	// MantExp sets the argument's precision and rounding mode to the
+	// receiver's, and when z.prec > x.prec this will lower z.prec. Restore
+	// them after the MantExp call.
+	prec, mode := z.prec, z.mode
 	b := x.MantExp(z)
-	z.prec = prec
+	z.prec, z.mode = prec, mode
 
 	// Compute √(z·10**b) as
 	//   √( z)·10**(½b)     if b is even
